@@ -111,7 +111,6 @@ impl Cfg {
         match self.layers { 0 => "none", 1 => "enc", 2 => "comp", _ => "comp+enc" }
     }
     pub fn writer_config(&self) -> ArchiveWriterConfig {
-        let mut c = ArchiveWriterConfig::new();
         let mut l = Layers::EMPTY;
         if self.layers & L_ENC != 0 {
             l |= Layers::ENCRYPT;
@@ -119,7 +118,16 @@ impl Cfg {
         if self.layers & L_COMP != 0 {
             l |= Layers::COMPRESS;
         }
-        c.set_layers(l);
+        // the same layer set reached through different legal builder histories (chosen from the case, so
+        // that a replay does the same): new + set_layers / default + set_layers / layers switched off
+        // and on again / enabled one by one
+        let how = self.recipients.first().map(|k| k[1]).unwrap_or(self.level as u8) % 4;
+        let mut c = if how == 1 { ArchiveWriterConfig::default() } else { ArchiveWriterConfig::new() };
+        match how {
+            2 => { c.set_layers(l); c.disable_layer(Layers::ENCRYPT | Layers::COMPRESS); c.enable_layer(l); c.disable_layer(Layers::EMPTY); }
+            3 => { if self.layers & L_COMP != 0 { c.enable_layer(Layers::COMPRESS); } if self.layers & L_ENC != 0 { c.enable_layer(Layers::ENCRYPT); } }
+            _ => { c.set_layers(l); }
+        }
         if self.layers & L_COMP != 0 {
             c.with_compression_level(self.level).unwrap();
         }
